@@ -1011,6 +1011,7 @@ func runKINDIn(c *Ctx, g *MCG, r *Result, rule string, fns []*ssa.Function, reac
 		bad kset
 		got kset
 		m   string
+		arg bool
 	}
 	var pend []pending
 	for _, f := range fns {
@@ -1021,6 +1022,16 @@ func runKINDIn(c *Ctx, g *MCG, r *Result, rule string, fns []*ssa.Function, reac
 				continue
 			}
 			callee := call.Call.StaticCallee()
+			// argument validity: Set(x), reflect.Append(s, x...), reflect.AppendSlice(s, t) panic when
+			// x / t is the zero Value ("no value")
+			for _, a := range kindValidArgs(call) {
+				n++
+				k := shortFn(f) + ":" + a.what
+				ord[k]++
+				got := e.at(a.v, call.Block())
+				o := Obligation{Rule: rule, Key: fmt.Sprintf("%s#%d", k, ord[k]), Fn: shortFn(f), Pos: c.W.Pos(call.Pos()), Nontrivial: true}
+				pend = append(pend, pending{o: o, f: f, key: excSiteKey{shortFn(f), a.what, ord[k]}, bad: got & kInvalid, got: got, m: a.what, arg: true})
+			}
 			if callee == nil || callee.Signature.Recv() == nil || !isReflectValue(callee.Signature.Recv().Type()) {
 				continue
 			}
@@ -1056,6 +1067,11 @@ func runKINDIn(c *Ctx, g *MCG, r *Result, rule string, fns []*ssa.Function, reac
 	for _, p := range pend {
 		o := p.o
 		switch {
+		case p.bad == 0 && p.arg:
+			o.Verdict, o.Reason = Discharged, fmt.Sprintf("argument may be %s: never the zero Value", p.got)
+			if p.got == 0 {
+				o.Reason = "unreachable in the module call graph (no value reaches the argument)"
+			}
 		case p.bad == 0:
 			o.Verdict, o.Reason = Discharged, fmt.Sprintf("receiver may be %s, %s accepts that", p.got, p.m)
 			if p.got == 0 {
@@ -1067,6 +1083,9 @@ func runKINDIn(c *Ctx, g *MCG, r *Result, rule string, fns []*ssa.Function, reac
 				break
 			}
 			o.Verdict, o.Reason = Finding, fmt.Sprintf("reflect.Value.%s panics on a receiver of kind %s, which no dominating test excludes (receiver may be %s)", p.m, p.bad, p.got)
+			if p.arg {
+				o.Reason = fmt.Sprintf("%s panics when this argument is the zero Value (\"no value\"), which no dominating test excludes (it may be %s)", p.m, p.got)
+			}
 			if reach != nil {
 				o.Path = reach.Path(p.f)
 			}
@@ -1123,4 +1142,27 @@ func dumpKINDfn(c *Ctx, name string) {
 			}
 		}
 	}
+}
+
+// kindValidArg: an argument of a reflect call that must not be the zero Value.
+type kindValidArg struct {
+	v    ssa.Value
+	what string
+}
+
+func kindValidArgs(call *ssa.Call) []kindValidArg {
+	args := call.Call.Args
+	switch staticName(call) {
+	case "reflect.Value.Set":
+		return []kindValidArg{{args[1], "Set.arg"}}
+	case "reflect.AppendSlice":
+		return []kindValidArg{{args[1], "AppendSlice.arg"}}
+	case "reflect.Append":
+		var out []kindValidArg
+		for _, x := range variadicElems(args[1]) {
+			out = append(out, kindValidArg{x, "Append.arg"})
+		}
+		return out
+	}
+	return nil
 }
